@@ -2400,8 +2400,10 @@ func (t *Topic) replySetDesc(sess *Session, asUid types.Uid, asChan bool,
 		}
 	}
 	if err == nil && len(sub) > 0 {
+		// The subscription of a channel reader is stored under the chnXXX name, the subscription of
+		// a normal subscriber under grpXXX, whichever way the request spells the topic name.
 		tname := t.name
-		if asChan {
+		if t.perUser[asUid].isChan {
 			tname = types.GrpToChn(tname)
 		}
 		err = store.Subs.Update(tname, asUid, sub)
